@@ -145,6 +145,40 @@ def run(ctx, repo, tier):
         else:
             ctx.ok("ORD", "C08.ord.set", "iteration over a hash container of ints / coordinate tuples: order is a deterministic function of the "
                    "contents (CPython), identical in every process", fi.where, txt[:120])
+    # ------------------------------------------------------------ ORD: polytope-based grids keep the polytope's index order
+    # (prefix stability: the N-point grid is the first N nodes; a value-sort / de-duplication on the way re-orders the rows)
+    REORDER = {"unique", "sort", "sorted", "flip", "flipud", "shuffle", "permutation", "lexsort", "argsort", "set", "frozenset", "roll"}
+    rm = repo.module("molgri.space.rotobj")
+    n_poly = 0
+    for c in rm.classes.values():
+        for fi in c.methods.values():
+            if fi.name not in ("_gen_grid", "gen_grid"):
+                continue
+            for n in ast.walk(fi.node):
+                if not (isinstance(n, ast.Call) and isinstance(n.func, ast.Attribute) and n.func.attr in ("get_half_of_hypercube", "get_nodes")
+                        and "polytope" in src(n.func.value)):
+                    continue
+                n_poly += 1
+                ctx.instance("ORD")
+                # wrappers between the polytope getter and the statement
+                wrappers = []
+                p_ = getattr(n, "_parent", None)
+                while p_ is not None and not isinstance(p_, ast.stmt):
+                    if isinstance(p_, ast.Call) and p_ is not n:
+                        wrappers.append(src(p_.func).split(".")[-1])
+                    if isinstance(p_, ast.Subscript) and isinstance(p_.slice, ast.Slice) and p_.slice.step is not None:
+                        wrappers.append("[::step]")
+                    p_ = getattr(p_, "_parent", None)
+                bad = [w for w in wrappers if w in REORDER or w == "[::step]"]
+                if bad:
+                    ctx.violate("ORD", "C08.prefix.grid_order", "the rows taken from the polytope (index order) pass through a re-ordering operation "
+                                "before they become the grid: the N-point grid is no longer the first N nodes of every larger grid of the family",
+                                fi.where, norm_stmt(p_)[:160] if p_ is not None else src(n)[:120], witness=f"re-ordering wrapper(s): {bad}")
+                else:
+                    ctx.ok("ORD", "C08.prefix.grid_order", "the grid rows are the polytope's nodes in index order (no re-ordering on the way)", fi.where,
+                           src(n)[:120])
+    if n_poly == 0:
+        ctx.inconclusive("ORD", "C08.prefix.grid_order", "no polytope-based grid generator found in molgri/space/rotobj.py", rm.relpath)
     # ------------------------------------------------------------ OWN: prefix stability
     store = PR.index_writers(ctx, repo, "C08")
     PR.index_assignment(ctx, repo, "C08", store)
